@@ -277,5 +277,39 @@ pub fn relations(args: &Args, s: &mut Summary) {
             }
         }
     }
+    // MapPost!SortedStable at scale: many objects, few distinct times, shuffled file order
+    for run in 0..(if thorough { 300 } else { 60 }) {
+        let n = 25 + rng.below(70);
+        let times: Vec<i64> = (0..(2 + rng.below(6))).map(|_| rng.below(5000) as i64 - 500).collect();
+        let objs: Vec<(usize, i64)> = (0..n).map(|i| (i, *rng.pick(&times))).collect();
+        let mut text = String::from("osu file format v14\n\n[HitObjects]\n");
+        for (i, t) in &objs {
+            match i % 3 {
+                0 => text.push_str(&format!("{},100,{t},1,0,0:0:0:0:\n", i * 10)),
+                1 => text.push_str(&format!("{},100,{t},2,0,L|{}:100,1,50\n", i * 10, i * 10 + 50)),
+                _ => text.push_str(&format!("{},192,{t},128,0,{}:0:0:0:0:\n", i * 10, t + 100)),
+            }
+        }
+        let r = guarded(&format!("stable order run {run}"), || rosu_map::from_str::<HitObjects>(&text));
+        s.checks += 1;
+        match r {
+            Err(p) => s.mismatch("panic", json!({"text": text, "panic": p})),
+            Ok(Err(_)) => s.mismatch("io-error", json!({"text": text})),
+            Ok(Ok(mut h)) => {
+                s.cases += 1;
+                let got: Vec<(i64, i64)> = h.hit_objects.iter_mut().map(|o| {
+                    let p = proj(o);
+                    (geti(&p, "id"), geti(&p, "t"))
+                }).collect();
+                let sorted = got.windows(2).all(|w| w[0].1 <= w[1].1);
+                let stable = got.windows(2).all(|w| w[0].1 != w[1].1 || w[0].0 < w[1].0);
+                if got.len() != n || !sorted {
+                    s.mismatch("objects-not-in-time-order", json!({"text": text}));
+                } else if !stable {
+                    s.mismatch("equal-times-not-in-file-order", json!({"n": n, "text": text}));
+                }
+            }
+        }
+    }
     s.sample(json!({"files": files.len(), "shifts": [-1000000, -777, -1, 1, 3, 1000, 1000000]}));
 }
